@@ -139,7 +139,12 @@ def run(facts):
                             mask = [y for y in (x[2], x[3]) if isinstance(y, tuple) and y[0] == "const"]
                             if mask and mask[0][1] == 1:
                                 parity = c[1] if r[0] == "eq" else 1 - c[1]
-                nonempty = any((r[0] == "truth" and "is_empty" in str(r[1]) and r[2] == 0) for r in rels)
+                def is_len(x):
+                    x = canon(x)
+                    return isinstance(x, tuple) and x[0] == "call" and x[1].rsplit("::", 1)[-1] == "len"
+                nonempty = any((r[0] == "truth" and "is_empty" in str(r[1]) and r[2] == 0) or
+                               (r[0] == "ne" and ((is_len(r[1]) and canon(r[2]) == ("const", 0)) or (is_len(r[2]) and canon(r[1]) == ("const", 0)))) or
+                               (r[0] == "lt" and canon(r[1]) == ("const", 0) and is_len(r[2])) for r in rels)
                 aggs.append((bi, names[0] if names else None, tagged, parity, nonempty))
     key = "From<Box<[u8]>>|parity dispatch"
     probs = []
